@@ -19,7 +19,7 @@ RULE = ('(a) every state of the bounded BFS over bisection sequences (depth <= 2
         'result refines the previous mesh, every leaf has h_t/K < h_x^sigma < K*h_t, result is a 1-irregular '
         'bisection tiling with consistent bookkeeping and neighbours; (c) meshes built to contain a leaf exactly on the '
         'boundary of the window (every dyadic solution of h_x^sigma = K h_t or h_t/K = h_x^sigma with space level <= 5), '
-        'which a strict window must refine. Non-trivial = the grading changed the mesh; '
+        'which a strict window must refine; (d) level staircases (3..8 combined bisections towards one corner of an element). Non-trivial = the grading changed the mesh; '
         'the histogram also counts cases in which a space-marked element was overtaken by the time closure in the '
         'same sweep (the situation of the repaired defect); distinct by case.')
 ASSUMPTIONS = ['uniqueness / minimality of the graded mesh is not claimed by the property and not asserted',
@@ -122,6 +122,24 @@ def boundary_cases():
     return out
 
 
+def staircase_cases():
+    """level staircases: k successive combined (time + space) bisections towards one corner of an element, so that the
+    grading sweep meets leaves that it bisects twice in one sweep"""
+    out = []
+    specs = [{'kind': 'param', 'curve': 'UnitSquare', 'ts': [0.0, 1.0], 'xs': None},
+             {'kind': 'abstract', 'glue': False, 'xs': [0.0, 1.0], 'ts': [0.0, 1.0]},
+             {'kind': 'abstract', 'glue': True, 'xs': [0.0, 1.0, 2.0], 'ts': [0.0, 1.0]},
+             {'kind': 'param', 'curve': 'Circle', 'ts': [0.0, 0.5, 1.0], 'xs': None}]
+    for spec in specs:
+        for sel in ('t0', 'x0', 'xL'):
+            for K in range(4):
+                for k in (3, 5, 6, 8):
+                    for sigma in (1.0, 1.5, 2.0):
+                        ops = [['tx', [sel, 0]]] + [['tx', ['last%d' % K, 0]]] * k
+                        out.append({'kind': 'history', 'mesh': spec, 'ops': ops, 'sigma': sigma, 'bias': 0.5})
+    return out
+
+
 def body(case, rec, cap):
     rec.case()
     try:
@@ -186,6 +204,8 @@ def run(ctx):
         body({'kind': 'bfs', 'mesh': meshdrive.BFS_MESHES[mno], 'seq': seq, 'sigma': s}, ctx.rec, cap)
     for case in ctx.mine(boundary_cases()):
         body(case, ctx.rec, cap)
+    for case in ctx.mine(staircase_cases()):
+        body(case, ctx.rec, 5000)
     # (b) histories
     n = ctx.share(4000 if ctx.quick else 32000)
     explore(ctx, cases(25 if ctx.quick else 200), lambda c, r: body(c, r, cap), n)
